@@ -6,7 +6,7 @@ Open Scope string_scope.
 
 From VerifGen Require Import C15Src2.
 
-(* saml2/sigver.py:verify_redirect_signature (.encode("ascii") rewritten by harness/c15.py), lines 585-625 *)
+(* saml2/sigver.py:verify_redirect_signature (.encode("ascii") rewritten by harness/c15.py), lines 590-630 *)
 Definition src2_verify_redirect_signature (signer_algs_ext : pyval) (req_order_ext : pyval) (resp_order_ext : pyval) (urlencode_ext : pyval -> pyval) (pem_format_ext : pyval -> pyval) (cert_key_ext : pyval -> pyval) (encode_ascii_ext : pyval -> pyval) (b64decode_ext : pyval -> pyval) (b64encode_ext : pyval -> pyval) (key_verify_ext : pyval -> pyval -> pyval -> pyval -> pyval) (v_saml_msg : pyval) (v_crypto : pyval) (v_cert : pyval) (v_sigkey : pyval) : pyval :=
   let v_signer := PErr in
   let v__order := PErr in
